@@ -24,6 +24,13 @@ Proof.
   intros L H. apply (in_range_remove _ _ ax) in H. now rewrite remove_insert_nth in H by exact L.
 Qed.
 
+Lemma insert_remove_nth_self (l : list nat) ax : ax < length l -> insert_nth (remove_nth l ax) ax (nth ax l 0) = l.
+Proof.
+  revert ax; induction l as [|h t IH]; intros [|ax] H; cbn [length] in H; try lia.
+  - destruct t; reflexivity.
+  - cbn [remove_nth nth insert_nth]. f_equal. apply IH. lia.
+Qed.
+
 Section StackSpec.
 Context {T : Type} (d : T).
 
@@ -54,11 +61,11 @@ Proof.
 Qed.
 
 (* walking unit-extent inputs: entry k of the axis is input number k *)
-Lemma locate_units s ax (arrs : list (arr T)) : forall c dummy,
+Lemma locate_units ax (arrs : list (arr T)) : forall c dummy,
   Forall (fun a => nth ax (shape a) 0 = 1) arrs -> ax < length c -> nth ax c 0 < length arrs ->
   locate d ax arrs c = get d (nth (nth ax c 0) arrs dummy) (upd c ax 0).
 Proof.
-  clear s. induction arrs as [|a t IH]; intros c dummy F Lc Hk; cbn [length] in Hk; [lia|].
+  induction arrs as [|a t IH]; intros c dummy F Lc Hk; cbn [length] in Hk; [lia|].
   apply Forall_cons_iff in F as [Ua Ft]. cbn [locate]. rewrite Ua.
   destruct (nth ax c 0) as [|k] eqn:Ek.
   - cbn [Nat.ltb Nat.leb nth]. now rewrite (upd_same_nth c ax Ek).
@@ -66,36 +73,24 @@ Proof.
     rewrite (IH (upd c ax k) dummy Ft); rewrite ?upd_length, ?nth_upd_eq; try lia. now rewrite upd_upd.
 Qed.
 
-(* STACK: n inputs of one shape s (rank >= 1, positive extents) along a new axis ax <= rank *)
-Theorem stack_spec s ax (first : arr T) rest :
+(* the core: concatenating the unit views of n arrays of one shape s along the unit axis *)
+Lemma concat_units s ax (first : arr T) rest :
   1 <= length s -> pos_shape s -> ax <= length s -> (Z.of_nat (S (length s)) < two64)%Z ->
   Forall (fun a => wf a /\ shape a = s) (first :: rest) ->
-  exists R, stack d (first :: rest) (Some ax) = Ok R /\ wf R /\
+  exists R, concatenate d (map (unit_view s ax) (first :: rest)) (Some ax) = Ok R /\ wf R /\
     shape R = insert_nth s ax (length (first :: rest)) /\
     forall c, in_range (shape R) c ->
       get d R c = get d (nth (nth ax c 0) (first :: rest) first) (remove_nth c ax).
 Proof.
   intros R1 P Hax B F. set (arrs := first :: rest) in *.
   assert (forall a, In a arrs -> wf a /\ shape a = s) as Fa by (apply Forall_forall; exact F).
-  unfold stack. fold arrs.
-  assert (all_same_shape arrs = true) as ->.
-  { unfold all_same_shape. apply forallb_forall. intros [x y] Hin. cbn [fst snd]. apply nat_list_eqb_spec.
-    pose proof (in_combine_l _ _ _ _ Hin) as Hx. pose proof (in_combine_r _ _ _ _ Hin) as Hy.
-    assert (In y arrs) as Hy' by (unfold arrs in *; cbn [tl] in Hy; now right).
-    destruct (Fa x Hx) as [_ ->]. destruct (Fa y Hy') as [_ ->]. reflexivity. }
-  cbn [negb].
-  assert (shape first = s) as Sf by (apply (Fa first); now left).
-  assert (ndim first <? ax = false) as -> by (apply Nat.ltb_ge; unfold ndim; rewrite Sf; exact Hax).
-  rewrite (mapM_ok _ (unit_view s ax)).
-  2:{ intros a Ha. destruct (Fa a Ha) as [W S]. rewrite <- S. apply expand_dims_unit; [exact W | unfold ndim; rewrite S; exact Hax]. }
-  cbn [bind]. unfold arrs at 1. cbn [map].
-  assert (Forall (joinable d ax s (S (length s))) (map (unit_view s ax) arrs)) as J.
+  assert (Forall (joinable ax s (S (length s))) (map (unit_view s ax) arrs)) as J.
   { apply Forall_forall. intros u Hu. apply in_map_iff in Hu as (a & <- & Ha). destruct (Fa a Ha) as [W S].
     unfold joinable, unit_view. cbn [shape elems]. split; [|split; [|split]].
     - unfold wf. cbn [shape elems]. rewrite prod_insert_nth, W, S. lia.
     - unfold pos_shape in *. rewrite Forall_forall in *. intros x Hx.
       apply In_nth with (d := 0) in Hx as (i & Hi & <-). rewrite insert_nth_length in Hi.
-      destruct (lt_eq_lt_dec i ax) as [[Lt|->]|Gt].
+      destruct (lt_eq_lt_dec i ax) as [[Lt|Eq]|Gt]; [| subst i |].
       + rewrite nth_insert_nth_lt' by lia. apply P, nth_In. lia.
       + rewrite nth_insert_nth by lia. lia.
       + rewrite nth_insert_nth_gt by lia. apply P, nth_In. lia.
@@ -107,18 +102,17 @@ Proof.
   assert (nth ax (shape R) 0 = length arrs) as NX.
   { rewrite SX. unfold unit_view at 2. cbn [shape]. rewrite nth_insert_nth by exact Hax.
     assert (forall l k, fold_left (fun (s0 : nat) (a : arr T) => s0 + nth ax (shape a) 0) (map (unit_view s ax) l) k = k + length l) as K.
-    { induction l as [|h t IH]; intros k; cbn [map fold_left length]; [lia|]. rewrite IH. unfold unit_view at 2. cbn [shape].
+    { induction l as [|h t IH]; intros k; cbn [map fold_left length]; [lia|]. rewrite IH. unfold unit_view. cbn [shape].
       rewrite nth_insert_nth by exact Hax. lia. }
     rewrite K. unfold arrs. cbn [length]. lia. }
   assert (shape R = insert_nth s ax (length arrs)) as SR.
   { assert (ax < length (shape R)) as Lr by (unfold ndim in NR; lia).
-    rewrite <- RR, <- NX. clear - Lr. revert Lr. generalize (shape R) as l. intros l; revert ax.
-    induction l as [|h t IH]; intros [|ax] H; cbn in *; try lia; auto. f_equal. apply IH. lia. }
+    rewrite <- RR, <- NX. symmetry. apply insert_remove_nth_self. exact Lr. }
   split; [exact SR|].
   intros c Hc. rewrite (G c Hc). change (unit_view s ax first :: map (unit_view s ax) rest) with (map (unit_view s ax) arrs).
   assert (ax < length c) as Lc by (apply in_range_length in Hc; unfold ndim in NR; lia).
   assert (nth ax c 0 < length arrs) as Hk by (rewrite SR in Hc; apply (in_range_insert_nth_lt s c ax _ Hax Hc)).
-  rewrite (locate_units s ax _ c (unit_view s ax first)).
+  rewrite (locate_units ax _ c (unit_view s ax first)).
   - rewrite (nth_map_lt (unit_view s ax) arrs _ first) by exact Hk.
     set (a := nth (nth ax c 0) arrs first).
     assert (In a arrs) as Ha by (apply nth_In; exact Hk). destruct (Fa a Ha) as [W S].
@@ -134,4 +128,341 @@ Proof.
   - rewrite map_length. exact Hk.
 Qed.
 
+(* STACK: n inputs of one shape s (rank >= 1, positive extents) along a new axis ax <= rank *)
+Theorem stack_spec s ax (first : arr T) rest :
+  1 <= length s -> pos_shape s -> ax <= length s -> (Z.of_nat (S (length s)) < two64)%Z ->
+  Forall (fun a => wf a /\ shape a = s) (first :: rest) ->
+  exists R, stack d (first :: rest) (Some ax) = Ok R /\ wf R /\
+    shape R = insert_nth s ax (length (first :: rest)) /\
+    forall c, in_range (shape R) c ->
+      get d R c = get d (nth (nth ax c 0) (first :: rest) first) (remove_nth c ax).
+Proof.
+  intros R1 P Hax B F. destruct (concat_units s ax first rest R1 P Hax B F) as (R & E & Rest).
+  exists R. split; [|exact Rest]. clear Rest. set (arrs := first :: rest) in *.
+  assert (forall a, In a arrs -> wf a /\ shape a = s) as Fa by (apply Forall_forall; exact F).
+  unfold stack. fold arrs.
+  assert (all_same_shape arrs = true) as ->.
+  { unfold all_same_shape. apply forallb_forall. intros [x y] Hin. cbn [fst snd]. apply nat_list_eqb_spec.
+    pose proof (in_combine_l _ _ _ _ Hin) as Hx. pose proof (in_combine_r _ _ _ _ Hin) as Hy.
+    assert (In y arrs) as Hy' by (unfold arrs in *; cbn [tl] in Hy; now right).
+    destruct (Fa x Hx) as [_ ->]. destruct (Fa y Hy') as [_ ->]. reflexivity. }
+  cbn [negb].
+  assert (shape first = s) as Sf by (apply (Fa first); now left).
+  unfold arrs at 1. cbv iota.
+  assert (ndim first <? ax = false) as -> by (apply Nat.ltb_ge; unfold ndim; rewrite Sf; exact Hax).
+  rewrite (mapM_ok _ (unit_view s ax)).
+  2:{ intros a Ha. destruct (Fa a Ha) as [W S]. rewrite <- S. apply expand_dims_unit; [exact W | unfold ndim; rewrite S; exact Hax]. }
+  cbn [bind]. exact E.
+Qed.
+
+(* DSTACK of matrices: rank-2 inputs of one shape [r; c] are promoted to [r; c; 1] and joined along axis 2 —
+   the result is the stack along a new last axis *)
+Theorem dstack_matrices r c (first : arr T) rest :
+  0 < r -> 0 < c -> Forall (fun a => wf a /\ shape a = [r; c]) (first :: rest) ->
+  exists R, dstack d (first :: rest) = Ok R /\ wf R /\ shape R = [r; c; length (first :: rest)] /\
+    forall i j k, i < r -> j < c -> k < length (first :: rest) ->
+      get d R [i; j; k] = get d (nth k (first :: rest) first) [i; j].
+Proof.
+  intros Hr Hc F.
+  destruct (concat_units [r; c] 2 first rest ltac:(cbn; lia) ltac:(repeat constructor; lia) ltac:(cbn; lia)
+              ltac:(cbn; unfold two64; lia) F) as (R & E & WR & SR & G).
+  exists R. set (arrs := first :: rest) in *.
+  assert (forall a, In a arrs -> wf a /\ shape a = [r; c]) as Fa by (apply Forall_forall; exact F).
+  cbn [insert_nth] in SR.
+  split; [|split; [exact WR|split; [exact SR|]]].
+  - unfold dstack. unfold arrs at 1. cbv iota. fold arrs.
+    rewrite (mapM_ok _ (unit_view [r; c] 2)).
+    2:{ intros a Ha. destruct (Fa a Ha) as [W S]. unfold atleast, ndim. rewrite S. cbn [length Nat.leb].
+        unfold unit_view. cbn [insert_nth]. apply reshape_iff. unfold len. rewrite W, S. cbn. lia. }
+    cbn [bind].
+    assert (validate_stack_shapes (map (unit_view [r; c] 2) arrs) 2 2 = Ok tt) as ->.
+    { apply (validate_ok 2 [r; c] 3); [lia|]. apply Forall_forall. intros u Hu. apply in_map_iff in Hu as (a & <- & Ha).
+      destruct (Fa a Ha) as [W S]. unfold joinable, unit_view. cbn [shape elems insert_nth]. repeat split.
+      - unfold wf. cbn [shape elems]. rewrite W, S. cbn. lia.
+      - repeat constructor; lia. }
+    cbn [bind]. unfold arrs at 1. cbn [map]. fold arrs. rewrite E. cbn [bind].
+    replace (upd (shape (unit_view [r; c] 2 first)) 2 (sum_axis (map (unit_view [r; c] 2) arrs) 2)) with (shape R).
+    + destruct R as [es sh]. apply reshape_iff. unfold len. symmetry. exact WR.
+    + rewrite SR. unfold unit_view at 1. cbn [shape insert_nth upd]. do 2 f_equal. unfold sum_axis.
+      assert (forall l k, fold_left (fun (s0 : nat) (a : arr T) => s0 + nth 2 (shape a) 0) (map (unit_view [r; c] 2) l) k = k + length l) as K.
+      { induction l as [|h t IH]; intros k; cbn [map fold_left length]; [lia|]. rewrite IH. unfold unit_view. cbn. lia. }
+      rewrite K. reflexivity.
+  - intros i j k Hi Hj Hk. rewrite (G [i; j; k]); [reflexivity|]. rewrite SR. cbn [in_range]. repeat split; assumption.
+Qed.
+
 End StackSpec.
+
+(* ---------- rank-1 joins along axis 0: the element lists are chained ---------- *)
+Section Rank1.
+Context {T : Type} (d : T).
+
+Lemma transpose_rank1_id (r : arr T) n : wf r -> shape r = [n] -> transpose d r (Some [0%Z]) = Ok r.
+Proof.
+  intros W S.
+  assert (is_perm [0] (ndim r)) as P.
+  { unfold is_perm, ndim. rewrite S. cbn. repeat split; [repeat constructor; auto | repeat constructor]. }
+  change [0%Z] with (map Z.of_nat [0]). rewrite (transpose_of_perm d r [0] P).
+  destruct (transpose_perm_ok d r [0] W ltac:(unfold ndim; rewrite S; cbn; lia) P) as (r' & E & W' & S' & G & _).
+  rewrite E. f_equal. apply (array_ext d); auto.
+  - rewrite S', S. reflexivity.
+  - intros c Hc. rewrite S', S in Hc. cbn [pick map nth] in Hc. destruct c as [|i [|? ?]]; cbn [in_range] in Hc; try tauto.
+    specialize (G [i]). rewrite S in G. cbn [pick map nth] in G. apply G. exact Hc.
+Qed.
+
+Theorem append_rank1 (a v : arr T) na nv : wf a -> wf v -> shape a = [na] -> shape v = [nv] ->
+  append d a v (Some 0) = Ok (mk (elems a ++ elems v) [na + nv]).
+Proof.
+  intros Wa Wv Sa Sv. unfold append, ndim. rewrite Sa, Sv. cbn [length Nat.ltb Nat.leb guard bind Nat.eqb negb remove_nth].
+  cbn [nat_list_eqb list_eqb negb].
+  unfold split_axis, ndim. rewrite Sa, Sv. cbn [length Nat.ltb Nat.leb guard bind Nat.eqb orb].
+  rewrite !Bool.orb_true_r. cbn [bind app flat_map]. rewrite app_nil_r, flat_arr_ok. cbn [bind prod Nat.eqb].
+  unfold len. cbn [elems]. rewrite Nat.div_1_r. cbn [upd swap_list nth seq map insert_nth Nat.sub].
+  unfold swap_list. cbn [upd nth].
+  assert (length (elems a ++ elems v) = na + nv) as L.
+  { rewrite app_length. unfold wf in Wa, Wv. rewrite Sa in Wa. rewrite Sv in Wv. cbn in Wa, Wv. lia. }
+  rewrite L.
+  assert (reshape (mk (elems a ++ elems v) [na + nv]) [na + nv] = Ok (mk (elems a ++ elems v) [na + nv])) as R.
+  { apply reshape_iff. unfold len. cbn. lia. }
+  rewrite R. cbn [bind].
+  rewrite (transpose_rank1_id _ (na + nv)); [| unfold wf; cbn; lia | reflexivity].
+  cbn [bind]. exact R.
+Qed.
+
+(* concatenation of rank-1 arrays along axis 0 *)
+Definition chain (arrs : list (arr T)) : list T := flat_map (@elems T) arrs.
+
+Theorem concatenate_rank1 (first : arr T) rest :
+  Forall (fun a => wf a /\ ndim a = 1) (first :: rest) ->
+  concatenate d (first :: rest) (Some 0) = Ok (mk (chain (first :: rest)) [length (chain (first :: rest))]).
+Proof.
+  intros F. unfold concatenate.
+  assert (validate_stack_shapes (first :: rest) 0 0 = Ok tt) as ->.
+  { unfold validate_stack_shapes.
+    assert (forallb (fun a : arr T => 0 <? ndim a) (first :: rest) = true) as ->.
+    { apply forallb_forall. intros a Ha. rewrite Forall_forall in F. destruct (F a Ha) as [_ ->]. reflexivity. }
+    cbn [guard bind negb].
+    assert (map (fun a : arr T => remove_nth (shape a) 0) (first :: rest) = repeat [] (length (first :: rest))) as ->.
+    { induction (first :: rest) as [|a t IH]; [reflexivity|]. apply Forall_cons_iff in F as [[_ N] Ft].
+      cbn [map length repeat]. rewrite IH by exact Ft. f_equal. unfold ndim in N. destruct (shape a) as [|x [|? ?]]; cbn in *; try lia; reflexivity. }
+    assert (forall k, forallb (fun p : list nat * list nat => nat_list_eqb (fst p) (snd p)) (combine (repeat [] k) (tl (repeat [] k))) = true) as K.
+    { induction k as [|k IHk]; [reflexivity|]. cbn [repeat tl]. destruct k as [|k]; [reflexivity|].
+      cbn [repeat combine forallb fst snd]. exact IHk. }
+    rewrite K. reflexivity. }
+  cbn [bind]. apply Forall_cons_iff in F as [[Wf Nf] Ft].
+  assert (forall acc, wf acc -> ndim acc = 1 ->
+            fold_left (fun (r : res (arr T)) b => let* a := r in unwrap (append d a b (Some 0))) rest (Ok acc)
+            = Ok (mk (elems acc ++ chain rest) [length (elems acc ++ chain rest)])) as K.
+  { clear Wf Nf. induction rest as [|b t IH]; intros acc Wa Na; cbn [fold_left chain flat_map].
+    - rewrite app_nil_r. destruct acc as [es sh]. unfold ndim in Na. cbn in *. destruct sh as [|n [|? ?]]; cbn in Na; try lia.
+      unfold wf in Wa. cbn in Wa. f_equal. f_equal. f_equal. lia.
+    - apply Forall_cons_iff in Ft as [[Wb Nb] Ft']. cbn [bind].
+      assert (exists na, shape acc = [na]) as [na Sa] by (unfold ndim in Na; destruct (shape acc) as [|x [|? ?]]; cbn in Na; try lia; eauto).
+      assert (exists nb, shape b = [nb]) as [nb Sb] by (unfold ndim in Nb; destruct (shape b) as [|x [|? ?]]; cbn in Nb; try lia; eauto).
+      rewrite (append_rank1 acc b na nb Wa Wb Sa Sb). cbn [unwrap].
+      rewrite (IH Ft'); [| unfold wf; cbn; rewrite app_length; unfold wf in Wa, Wb; rewrite Sa in Wa; rewrite Sb in Wb; cbn in Wa, Wb; lia | reflexivity].
+      cbn [elems]. fold (chain t). rewrite <- app_assoc. reflexivity. }
+  rewrite (K first Wf Nf). reflexivity.
+Qed.
+
+(* hstack of rank-1 inputs is that concatenation *)
+Theorem hstack_rank1 (first : arr T) rest :
+  Forall (fun a => wf a /\ ndim a = 1) (first :: rest) ->
+  hstack_spec d (first :: rest) = Ok (mk (chain (first :: rest)) [length (chain (first :: rest))]) /\
+  hstack_pinned d (first :: rest) = hstack_spec d (first :: rest).
+Proof.
+  intros F. unfold hstack_spec, hstack_pinned, hstack_gen.
+  assert (forallb (fun a : arr T => ndim a =? 1) (first :: rest) = true) as ->.
+  { apply forallb_forall. intros a Ha. rewrite Forall_forall in F. destruct (F a Ha) as [_ ->]. reflexivity. }
+  split; [apply concatenate_rank1; exact F | reflexivity].
+Qed.
+
+Lemma nth_chain l (arrs : list (arr T)) dummy : forall k j,
+  Forall (fun a => wf a /\ shape a = [l]) arrs -> k < length arrs -> j < l ->
+  nth (k * l + j) (chain arrs) d = nth j (elems (nth k arrs dummy)) d.
+Proof.
+  induction arrs as [|a t IH]; intros k j F Hk Hj; cbn [length] in Hk; [lia|].
+  apply Forall_cons_iff in F as [[W Sh] Ft]. unfold chain. cbn [flat_map].
+  assert (length (elems a) = l) as La by (unfold wf in W; rewrite Sh in W; cbn in W; lia).
+  destruct k as [|k]; cbn [nth].
+  - rewrite app_nth1 by lia. reflexivity.
+  - rewrite app_nth2 by lia. replace (S k * l + j - length (elems a)) with (k * l + j) by lia.
+    apply (IH k j Ft); lia.
+Qed.
+
+(* vstack of n rank-1 inputs of one length l: the n x l matrix whose row k is input k *)
+Theorem vstack_rank1 l (first : arr T) rest :
+  Forall (fun a => wf a /\ shape a = [l]) (first :: rest) ->
+  exists R, vstack d (first :: rest) = Ok R /\ wf R /\ shape R = [length (first :: rest); l] /\
+    forall k j, k < length (first :: rest) -> j < l -> get d R [k; j] = nth j (elems (nth k (first :: rest) first)) d.
+Proof.
+  intros F. set (arrs := first :: rest) in *.
+  assert (Forall (fun a : arr T => wf a /\ ndim a = 1) arrs) as F1.
+  { eapply Forall_impl; [|exact F]. cbn. intros a [W S]. split; [exact W | unfold ndim; now rewrite S]. }
+  assert (forall (l0 : list (arr T)), Forall (fun a => wf a /\ shape a = [l]) l0 -> length (chain l0) = length l0 * l) as CL.
+  { induction l0 as [|a t IH]; intros Fl; [reflexivity|]. apply Forall_cons_iff in Fl as [[W S] Ft].
+    unfold chain in *. cbn [flat_map length]. rewrite app_length, IH by exact Ft. unfold wf in W. rewrite S in W. cbn in W. lia. }
+  exists (mk (chain arrs) [length arrs; l]).
+  assert (shape first = [l]) as Sf by (apply Forall_cons_iff in F as [[_ S] _]; exact S).
+  split; [|split; [|split; [reflexivity|]]].
+  - unfold vstack. unfold arrs at 1. cbv iota. fold arrs.
+    assert (validate_stack_shapes arrs 0 0 = Ok tt) as ->.
+    { pose proof (concatenate_rank1 first rest F1) as C. unfold concatenate in C. fold arrs in C.
+      destruct (validate_stack_shapes arrs 0 0) as [[]| | |]; try discriminate; reflexivity. }
+    cbn [bind]. unfold ndim at 1. rewrite Sf. cbn [length Nat.eqb].
+    unfold arrs at 1. rewrite (concatenate_rank1 first rest F1). fold arrs. cbn [bind].
+    apply reshape_iff. unfold len. cbn [elems prod]. rewrite (CL arrs F). lia.
+  - unfold wf. cbn [elems shape prod]. rewrite (CL arrs F). lia.
+  - intros k j Hk Hj. unfold get. cbn [shape elems flat prod].
+    replace (k * (l * 1) + (j * 1 + 0)) with (k * l + j) by lia. apply nth_chain; assumption.
+Qed.
+
+End Rank1.
+
+(* ---------- vstack / hstack / dstack of inputs that already have the required rank: they are the concatenation
+   along axis 0 / 1 / 2 (the final reshape to the summed extent is the identity) ---------- *)
+Section StackAxis.
+Context {T : Type} (d : T).
+
+Lemma concatenate_restack ax rs n (first : arr T) rest :
+  2 <= n -> ax < n -> (Z.of_nat n < two64)%Z -> Forall (joinable ax rs n) (first :: rest) ->
+  exists R, concatenate d (first :: rest) (Some ax) = Ok R /\
+    reshape R (upd (shape first) ax (sum_axis (first :: rest) ax)) = Ok R.
+Proof.
+  intros N2 Hax B F. destruct (concatenate_axis_spec d ax rs n first rest N2 Hax B F) as (R & E & WR & RR & NR & SX & _).
+  exists R. split; [exact E|].
+  apply Forall_cons_iff in F as [(Wf & Pf & Nf & Rf) _].
+  assert (upd (shape first) ax (sum_axis (first :: rest) ax) = shape R) as ->.
+  { rewrite upd_as_insert_remove by (unfold ndim in Nf; lia). rewrite Rf.
+    rewrite <- (insert_remove_nth_self (shape R) ax) by (unfold ndim in NR; lia). rewrite RR, SX.
+    unfold sum_axis. cbn [fold_left]. reflexivity. }
+  destruct R as [es sh]. apply reshape_iff. unfold len. symmetry. exact WR.
+Qed.
+
+Theorem vstack_axis rs n (first : arr T) rest :
+  2 <= n -> (Z.of_nat n < two64)%Z -> Forall (joinable 0 rs n) (first :: rest) ->
+  exists R, concatenate d (first :: rest) (Some 0) = Ok R /\ vstack d (first :: rest) = Ok R.
+Proof.
+  intros N2 B F. destruct (concatenate_restack 0 rs n first rest N2 ltac:(lia) B F) as (R & E & RS).
+  exists R. split; [exact E|]. unfold vstack. rewrite (validate_ok 0 rs n _ ltac:(lia) F). cbn [bind].
+  apply Forall_cons_iff in F as [(_ & _ & Nf & _) _].
+  destruct (Nat.eqb_spec (ndim first) 1) as [E1|_]; [lia|]. rewrite E. cbn [bind]. exact RS.
+Qed.
+
+Lemma mapM_atleast_id k (arrs : list (arr T)) : k = 2 \/ k = 3 -> Forall (fun a => k <= ndim a) arrs ->
+  mapM (fun a => atleast a k) arrs = Ok arrs.
+Proof.
+  intros Hk F. rewrite <- (map_id arrs) at 2. apply mapM_ok. intros a Ha. rewrite Forall_forall in F. specialize (F a Ha).
+  unfold atleast. destruct Hk as [-> | ->].
+  - destruct (Nat.leb_spec 2 (ndim a)); [reflexivity | lia].
+  - destruct (Nat.leb_spec 3 (ndim a)); [reflexivity | lia].
+Qed.
+
+Theorem hstack_axis rs n (first : arr T) rest :
+  2 <= n -> (Z.of_nat n < two64)%Z -> Forall (joinable 1 rs n) (first :: rest) ->
+  exists R, concatenate d (first :: rest) (Some 1) = Ok R /\ hstack_spec d (first :: rest) = Ok R.
+Proof.
+  intros N2 B F. destruct (concatenate_restack 1 rs n first rest N2 ltac:(lia) B F) as (R & E & RS).
+  exists R. split; [exact E|]. unfold hstack_spec, hstack_gen.
+  assert (forallb (fun a : arr T => ndim a =? 1) (first :: rest) = false) as ->.
+  { cbn [forallb]. apply Forall_cons_iff in F as [(_ & _ & Nf & _) _]. destruct (Nat.eqb_spec (ndim first) 1); [lia | reflexivity]. }
+  rewrite (mapM_atleast_id 2); [| now left | eapply Forall_impl; [|exact F]; cbn; intros a (_ & _ & Na & _); lia].
+  cbn [bind]. rewrite (validate_ok 1 rs n _ ltac:(lia) F). cbn [bind]. rewrite E. cbn [bind]. exact RS.
+Qed.
+
+Theorem dstack_axis rs n (first : arr T) rest :
+  3 <= n -> (Z.of_nat n < two64)%Z -> Forall (joinable 2 rs n) (first :: rest) ->
+  exists R, concatenate d (first :: rest) (Some 2) = Ok R /\ dstack d (first :: rest) = Ok R.
+Proof.
+  intros N3 B F. destruct (concatenate_restack 2 rs n first rest ltac:(lia) ltac:(lia) B F) as (R & E & RS).
+  exists R. split; [exact E|]. unfold dstack.
+  rewrite (mapM_atleast_id 3); [| now right | eapply Forall_impl; [|exact F]; cbn; intros a (_ & _ & Na & _); lia].
+  cbn [bind]. rewrite (validate_ok 2 rs n _ ltac:(lia) F). cbn [bind]. rewrite E. cbn [bind]. exact RS.
+Qed.
+
+End StackAxis.
+
+(* ---------- column_stack: vectors become columns, matrices keep theirs, laid side by side ---------- *)
+Section ColumnStack.
+Context {T : Type} (d : T).
+
+Definition ncols (a : arr T) : nat := if ndim a =? 1 then 1 else nth 1 (shape a) 0.
+
+(* where entry (i, j) of the result comes from: walk the inputs, subtracting their column counts *)
+Fixpoint col_locate (arrs : list (arr T)) (i j : nat) : T :=
+  match arrs with
+  | [] => d
+  | a :: t => if j <? ncols a then nth (i * ncols a + j) (elems a) d else col_locate t i (j - ncols a)
+  end.
+
+Definition total_cols (arrs : list (arr T)) : nat := fold_left (fun s a => s + ncols a) arrs 0.
+
+(* an input of column_stack with r rows: a vector of r elements or an r x c matrix *)
+Definition column_input (r : nat) (a : arr T) : Prop := wf a /\ (shape a = [r] \/ exists c, shape a = [r; c]).
+
+Lemma column_input_len r a : column_input r a -> length (elems a) = r * ncols a.
+Proof.
+  intros [W [S | [c S]]]; unfold wf in W; unfold ncols, ndim; rewrite S in *; cbn in *; lia.
+Qed.
+
+Lemma fold_cols_shift (arrs : list (arr T)) k : fold_left (fun s a => s + ncols a) arrs k = k + total_cols arrs.
+Proof.
+  unfold total_cols. revert k; induction arrs as [|a t IH]; intros k; cbn [fold_left]; [lia|].
+  rewrite IH, (IH (0 + ncols a)). lia.
+Qed.
+
+Lemma row_segment_length r (a : arr T) i : column_input r a -> i < r ->
+  length (firstn (ncols a) (skipn (i * ncols a) (elems a))) = ncols a.
+Proof. intros C Hi. apply column_input_len in C. rewrite firstn_length, skipn_length, C. nia. Qed.
+
+Lemma row_segments r (arrs : list (arr T)) i : Forall (column_input r) arrs -> i < r ->
+  length (flat_map (fun a => firstn (ncols a) (skipn (i * ncols a) (elems a))) arrs) = total_cols arrs /\
+  forall j, j < total_cols arrs ->
+    nth j (flat_map (fun a => firstn (ncols a) (skipn (i * ncols a) (elems a))) arrs) d = col_locate arrs i j.
+Proof.
+  intros F Hi. induction arrs as [|a t IH]; cbn [flat_map col_locate].
+  - split; [reflexivity | intros j Hj; unfold total_cols in Hj; cbn in Hj; lia].
+  - apply Forall_cons_iff in F as [Ca Ft]. destruct (IH Ft) as [L G].
+    pose proof (row_segment_length r a i Ca Hi) as La.
+    assert (total_cols (a :: t) = ncols a + total_cols t) as TC by (unfold total_cols at 1; cbn [fold_left]; now rewrite fold_cols_shift).
+    split; [rewrite app_length, La, L, TC; reflexivity|].
+    intros j Hj. rewrite TC in Hj. destruct (Nat.ltb_spec j (ncols a)) as [Lt|Ge].
+    + rewrite app_nth1 by lia. rewrite nth_firstn_lt by exact Lt. rewrite nth_skipn_add. reflexivity.
+    + rewrite app_nth2 by lia. rewrite La. apply G. lia.
+Qed.
+
+Theorem column_stack_spec r (first : arr T) rest :
+  Forall (column_input r) (first :: rest) ->
+  exists R, column_stack (first :: rest) = Ok R /\ wf R /\ shape R = [r; total_cols (first :: rest)] /\
+    forall i j, i < r -> j < total_cols (first :: rest) -> get d R [i; j] = col_locate (first :: rest) i j.
+Proof.
+  intros F. set (arrs := first :: rest) in *.
+  assert (forall a, In a arrs -> column_input r a) as Fa by (apply Forall_forall; exact F).
+  set (body := flat_map (fun row => flat_map (fun a : arr T => firstn (ncols a) (skipn (row * ncols a) (elems a))) arrs) (seq 0 r)).
+  assert (length body = r * total_cols arrs) as Lb.
+  { unfold body. rewrite (length_flat_map_uniform _ _ (total_cols arrs)); [now rewrite seq_length|].
+    intros row Hrow. apply in_seq in Hrow. apply (row_segments r arrs row F). lia. }
+  exists (mk body [r; total_cols arrs]).
+  split; [|split; [|split; [reflexivity|]]].
+  - unfold column_stack. unfold arrs at 1. cbv iota.
+    assert (exists tl_, shape first = r :: tl_) as [tl_ Sf].
+    { destruct (Fa first ltac:(now left)) as [_ [S | [c S]]]; rewrite S; eauto. }
+    rewrite Sf. fold arrs.
+    assert (forallb (fun a : arr T => (ndim a =? 1) || (ndim a =? 2)) arrs = true) as ->.
+    { apply forallb_forall. intros a Ha. destruct (Fa a Ha) as [_ [S | [c S]]]; unfold ndim; rewrite S; reflexivity. }
+    cbn [guard bind].
+    assert (forallb (fun a : arr T => nth 0 (shape a) 0 =? r) arrs = true) as ->.
+    { apply forallb_forall. intros a Ha. destruct (Fa a Ha) as [_ [S | [c S]]]; rewrite S; cbn [nth]; apply Nat.eqb_refl. }
+    cbn [negb]. change (fold_left (fun (s : nat) (a : arr T) => s + (if ndim a =? 1 then 1 else nth 1 (shape a) 0)) arrs 0) with (total_cols arrs).
+    change (flat_map _ (seq 0 r)) with body.
+    apply new_iff. split; [|reflexivity]. cbn [prod]. rewrite Lb. lia.
+  - unfold wf. cbn [elems shape prod]. rewrite Lb. lia.
+  - intros i j Hi Hj. unfold get. cbn [shape elems flat prod].
+    replace (i * (total_cols arrs * 1) + (j * 1 + 0)) with (i * total_cols arrs + j) by lia.
+    unfold body. rewrite (nth_flat_map_uniform _ _ (total_cols arrs) i j 0 d).
+    + rewrite seq_nth by exact Hi. cbn [Nat.add]. apply (row_segments r arrs i F Hi). exact Hj.
+    + intros row Hrow. apply in_seq in Hrow. apply (row_segments r arrs row F). lia.
+    + now rewrite seq_length.
+    + exact Hj.
+Qed.
+
+End ColumnStack.
